@@ -7,7 +7,8 @@
    Family "obs": TLC reads the observations back and judges each with the postcondition Post. *)
 EXTENDS Integers, Sequences, FiniteSets, TLC, Json
 
-CONSTANTS Family,     \* "gen" | "design" | "obs"
+CONSTANTS RejectIP,   \* TRUE: Normalize refuses every IP literal (code after the fix)
+          Family,     \* "gen" | "design" | "obs"
           MaxLen
 
 Emit(r) == PrintT("@@" \o ToJson(r))
@@ -37,6 +38,7 @@ AbsImpl(s) ==
   IF t = <<>> \/ t[1] = "dot" \/ t[Len(t)] = "dot" THEN "reject"          \* SubjectQualifiesForCert
   ELSE IF AbsIsLocal(t) THEN "reject"                                      \* SubjectIsInternal (8.8.8.8 is not a private address)
   ELSE IF \E i \in 1..Len(t) : t[i] = "star" THEN "reject"
+  ELSE IF RejectIP /\ AbsIsIP(t) THEN "reject"                              \* net.ParseIP (added by the fix: public IPs qualified before)
   ELSE IF \E i \in 1..Len(t) : t[i] \in {"upper", "other"} THEN "reject"   \* nonDnsRegex on the ToASCII result
   ELSE "accept"
 (* the statement at the abstract level: what is accepted is no wildcard, no IP address, no local name
